@@ -1,5 +1,7 @@
 import FxVerif.Proofs.C03View
 import FxVerif.Proofs.C03Prog
+import FxVerif.Proofs.C03Refine
+import FxVerif.Proofs.C03Legacy
 
 /-!
 # C03 — the executed event is field-for-field the event the quorum voted for
@@ -355,6 +357,14 @@ theorem attest_sites_well_keyed : ∀ t ∈ attestTrySites, t.wellKeyed = true :
 /-- … and there is such a call (the table is not empty because the translator lost track of `Attest`) -/
 theorem attest_sites_found : attestTrySites.any (fun t => t.att == .voted && t.claim == .voter) = true := by decide
 
+/-- where `Attest` gets the attestation the vote is appended to (REGENERATED table `attestLookup`: the assignments to that
+variable in the body of `Keeper.Attest`, in program order): only the attestation stored under the voter's OWN key
+`nonce ‖ ClaimHash(claim)`, or a new one recording the voter's claim — never one found under another key -/
+theorem attest_lookup_own_key : ∀ x ∈ attestLookup, x.own = true := by decide
+
+/-- … and the lookup under the own key is there (the table is not empty because the translator lost track of the variable) -/
+theorem attest_lookup_found : attestLookup.contains .ownKey = true ∧ attestLookup.contains .fresh = true := by decide
+
 /-- **the property**: whenever the handler runs, the claim object it is given — the threshold-crossing voter's — has the
 same type and the same effect-relevant fields as the claim of EVERY vote tallied in that attestation -/
 theorem executed_is_voted {η : Type} [DecidableEq η] (H : Str → η) (le : η → η → Bool) (ops : List Op)
@@ -362,8 +372,8 @@ theorem executed_is_voted {η : Type} [DecidableEq η] (H : Str → η) (le : η
     (collisionFree : ∀ c₁ ∈ Op.claims ops, ∀ c₂ ∈ Op.claims ops, H c₁.path = H c₂.path → c₁.path = c₂.path) :
     ∀ e ∈ (run (fun c => H c.path) le {} ops).executed, ∀ v ∈ e.tallied, v.2.effect = e.claim.effect := by
   intro e he v hv
-  have inv := inv_run attestTrySites attest_sites_well_keyed (fun c => H c.path) le (fun c => c ∈ Op.claims ops) ops {}
-    (inv_init _ _) (fun _ h => h)
+  have inv := inv_run attestTrySites attestLookup attest_sites_well_keyed attest_lookup_own_key (fun c => H c.path) le
+    (fun c => c ∈ Op.claims ops) (fun _ => False) (stale_false _ _) (Or.inr fun _ h => h) ops {} (inv_init _ _ _) (fun _ h => h)
   obtain ⟨pe, hv'⟩ := inv.2 e he
   obtain ⟨_, hk, pv⟩ := hv' v hv
   obtain ⟨k₁, v₁⟩ := valid _ pv
@@ -379,9 +389,9 @@ theorem tallied_together_agree {η : Type} [DecidableEq η] (H : Str → η) (le
     ∀ a ∈ (run (fun c => H c.path) le {} ops).atts, ∀ v ∈ a.votes,
       v.2.effect = a.claim.effect ∧ ∀ w ∈ a.votes, v.2.effect = w.2.effect := by
   intro a ha v hv
-  have inv := inv_run attestTrySites attest_sites_well_keyed (fun c => H c.path) le (fun c => c ∈ Op.claims ops) ops {}
-    (inv_init _ _) (fun _ h => h)
-  obtain ⟨⟨_, hc, pc⟩, hvs⟩ := inv.1 a ha
+  have inv := inv_run attestTrySites attestLookup attest_sites_well_keyed attest_lookup_own_key (fun c => H c.path) le
+    (fun c => c ∈ Op.claims ops) (fun _ => False) (stale_false _ _) (Or.inr fun _ h => h) ops {} (inv_init _ _ _) (fun _ h => h)
+  obtain ⟨⟨_, hc, pc⟩, hvs⟩ := (inv.1 a ha).resolve_right id
   obtain ⟨_, hk, pv⟩ := hvs v hv
   obtain ⟨k₁, v₁⟩ := valid _ pv
   refine ⟨?_, fun w hw => ?_⟩
@@ -390,6 +400,32 @@ theorem tallied_together_agree {η : Type} [DecidableEq η] (H : Str → η) (le
   · obtain ⟨_, hk', pw⟩ := hvs w hw
     obtain ⟨k₂, v₂⟩ := valid _ pw
     exact anyClaim_path_injective k₁ k₂ _ _ v₁ v₂ (collisionFree _ pv _ pw (hk.trans hk'.symm))
+
+/-- every stored attestation sits under the key of the claim it RECORDS — in every reachable state, with no hypothesis on the
+claims or the hash.  This is what genesis export / import relies on: `InitGenesis` files each exported attestation under
+`claim.GetEventNonce() ‖ claim.ClaimHash()` of its recorded claim (REGENERATED `interfaceUses`: `InitGenesis` calls exactly
+`GetEventNonce`, `ClaimHash`, `GetBlockHeight`) -/
+theorem attestation_filed_under_recorded_claim {η : Type} [DecidableEq η] (H : Str → η) (le : η → η → Bool) (ops : List Op) :
+    ∀ a ∈ (run (fun c => H c.path) le {} ops).atts, a.claim.nonce = a.nonce ∧ H a.claim.path = a.hash := by
+  intro a ha
+  have inv := inv_run attestTrySites attestLookup attest_sites_well_keyed attest_lookup_own_key (fun c => H c.path) le
+    (fun _ => True) (fun _ => False) (stale_false _ _) (Or.inr fun _ h => h) ops {} (inv_init _ _ _) (fun _ _ => trivial)
+  obtain ⟨⟨hn, hh, _⟩, _⟩ := (inv.1 a ha).resolve_right id
+  exact ⟨hn, hh⟩
+
+/-- … so re-filing every attestation under the key of its recorded claim (an export / import round trip of the attestation
+table) changes nothing, after any history -/
+theorem genesis_refile_is_identity {η : Type} [DecidableEq η] (H : Str → η) (le : η → η → Bool) (ops : List Op) :
+    (run (fun c => H c.path) le {} ops).atts.map (fun a => { a with nonce := a.claim.nonce, hash := H a.claim.path })
+      = (run (fun c => H c.path) le {} ops).atts := by
+  have h := attestation_filed_under_recorded_claim H le ops
+  generalize (run (fun c => H c.path) le {} ops).atts = l at h
+  induction l with
+  | nil => rfl
+  | cons a r ih =>
+    obtain ⟨hn, hh⟩ := h a List.mem_cons_self
+    simp only [List.map_cons, hn, hh]
+    rw [ih (fun b hb => h b (List.mem_cons_of_mem _ hb))]
 
 /-- deferred execution: what `ExecuteClaim` runs (send-to-fx, bridge-call and bridge-call-result claims are stored by
 `SavePendingExecuteClaim` and run later from the stored copy) is a claim object an observed attestation handed to the
@@ -401,7 +437,7 @@ theorem ran_is_voted {η : Type} [DecidableEq η] (H : Str → η) (le : η → 
     ∀ c ∈ (run (fun c => H c.path) le {} ops).ran,
       ∃ e ∈ (run (fun c => H c.path) le {} ops).executed, e.claim = c ∧ ∀ v ∈ e.tallied, v.2.effect = c.effect := by
   intro c hc
-  obtain ⟨e, he, hec⟩ := (pendInv_run attestTrySites (fun c => H c.path) le ops {} pendInv_init).2 c hc
+  obtain ⟨e, he, hec⟩ := (pendInv_run attestTrySites attestLookup (fun c => H c.path) le ops {} pendInv_init).2 c hc
   exact ⟨e, he, hec, fun v hv => hec ▸ executed_is_voted H le ops valid collisionFree e he v hv⟩
 
 /-- the stored copy waiting for `ExecuteClaim` under an event nonce is such a claim object, of that nonce -/
@@ -411,7 +447,7 @@ theorem pending_is_voted {η : Type} [DecidableEq η] (H : Str → η) (le : η 
     ∀ p ∈ (run (fun c => H c.path) le {} ops).pending, p.2.nonce = p.1 ∧
       ∃ e ∈ (run (fun c => H c.path) le {} ops).executed, e.claim = p.2 ∧ ∀ v ∈ e.tallied, v.2.effect = p.2.effect := by
   intro p hp
-  obtain ⟨hn, e, he, hec⟩ := (pendInv_run attestTrySites (fun c => H c.path) le ops {} pendInv_init).1 p hp
+  obtain ⟨hn, e, he, hec⟩ := (pendInv_run attestTrySites attestLookup (fun c => H c.path) le ops {} pendInv_init).1 p hp
   exact ⟨hn, e, he, hec, fun v hv => hec ▸ executed_is_voted H le ops valid collisionFree e he v hv⟩
 
 /-- `TryAttestation` also records the external block height of the claim object it is handed
@@ -425,7 +461,7 @@ theorem observed_height_is_voted {η : Type} [DecidableEq η] (H : Str → η) (
       ∧ ∀ v ∈ e.tallied, v.2.blockHeight = (run (fun c => H c.path) le {} ops).lastHeight := by
   intro e he
   have h1 : (run (fun c => H c.path) le {} ops).lastHeight = e.claim.blockHeight :=
-    heightInv_run attestTrySites (fun c => H c.path) le ops {} heightInv_init e he
+    heightInv_run attestTrySites attestLookup (fun c => H c.path) le ops {} heightInv_init e he
   refine ⟨h1, fun v hv => ?_⟩
   rw [h1]
   exact effect_blockHeight (executed_is_voted H le ops valid collisionFree e (List.mem_of_getLast? he) v hv)
@@ -475,11 +511,7 @@ theorem legacy_bridgeToken_not_injective :
 /-! ## the same state machine with the formats of commit 6774338: the executed event is NOT the voted one -/
 
 /-- store key of the pinned commit, with an ideal (injective) hash: the legacy path -/
-def legacyKey : AnyClaim → Str
-  | .bc c => legacyBridgeCallPath c
-  | .bcr c => legacyBridgeCallResultPath c
-  | .bt c => legacyBridgeTokenPath c
-  | c => c.path
+def legacyKey : AnyClaim → Str := AnyClaim.legacyPath
 
 /-- three oracles of power 10 (threshold 66 % of 30 = 19); oracle 0 votes for the bridge call with an empty memo, oracle 1
 for the same call with the send-call-to memo and another origin -/
@@ -518,7 +550,7 @@ def retallyOps : List Op :=
 hypothesis `attest_sites_well_keyed` of `executed_is_voted` is what rules this out -/
 theorem retally_with_voter_claim_not_voted :
     (∀ c ∈ Op.claims retallyOps, c.valid .eth = true)
-    ∧ ∃ e ∈ (runWith retallySites (fun c => c.path) (fun _ _ => true) {} retallyOps).executed,
+    ∧ ∃ e ∈ (runWith retallySites attestLookup (fun c => c.path) (fun _ _ => true) {} retallyOps).executed,
         ∃ v ∈ e.tallied, v.2.effect ≠ e.claim.effect :=
   ⟨by decide +kernel,
    ⟨{ claim := .bc { wCall with Memo := memoSendCallTo, TxOrigin := ethB }, tallied := [(0, .bc wCall)] },
@@ -526,6 +558,128 @@ theorem retally_with_voter_claim_not_voted :
 
 /-- the call structure found in the source leaves the first attestation open in the same history -/
 example : (run (fun c => c.path) (fun _ _ => true) {} retallyOps).executed = [] := by decide +kernel
+
+/-! ## attestations an earlier release left behind (round 4)
+
+`b7515bc` changed three `ClaimHash` formats.  An attestation that was open at the upgrade stays in the store under the hash
+the EARLIER release computed (`legacyKey`), with the votes cast for it.  The theorems above start from the empty state; the
+ones below start from ANY state: the attestation table may hold arbitrary attestations filed by other code under other
+hashes (`stale`: no claim submitted in the history has the key of one of them — for the legacy formats this is the
+collision-freeness of SHA-256 across the two formats).  What makes this safe is a fact about the body of `Attest` that the
+translator regenerates (`attestLookup`): the attestation the vote is appended to is looked up under the voter's own current
+key only.  A lookup that also adopts an attestation found under another key (`adoptingLookup`) tallies pre-upgrade votes
+with post-upgrade claims that differ in exactly the fields the old hash did not cover. -/
+
+/-- every `TryAttestation` call site is handed the attestation of the vote itself (REGENERATED `attestTrySites`) -/
+theorem attest_sites_voted : ∀ t ∈ attestTrySites, t.att = .voted := by decide
+
+/-- **the property, across an upgrade**: from any initial state whose attestations are stale (filed under keys no submitted
+claim has) and whose execution log is empty, every execution hands the handler a claim with the type and effect-relevant
+fields of EVERY tallied vote — the votes recorded in the stale attestations are never tallied with anything -/
+theorem executed_is_voted_from {η : Type} [DecidableEq η] (H : Str → η) (le : η → η → Bool) (s₀ : AState η) (ops : List Op)
+    (valid : ∀ c ∈ Op.claims ops, ∃ k, c.valid k = true)
+    (collisionFree : ∀ c₁ ∈ Op.claims ops, ∀ c₂ ∈ Op.claims ops, H c₁.path = H c₂.path → c₁.path = c₂.path)
+    (fresh₀ : s₀.executed = [])
+    (stale : ∀ a ∈ s₀.atts, ∀ c ∈ Op.claims ops, ¬(a.nonce = c.nonce ∧ a.hash = H c.path)) :
+    ∀ e ∈ (run (fun c => H c.path) le s₀ ops).executed, ∀ v ∈ e.tallied, v.2.effect = e.claim.effect := by
+  intro e he v hv
+  have inv := inv_run attestTrySites attestLookup attest_sites_well_keyed attest_lookup_own_key (fun c => H c.path) le
+    (fun c => c ∈ Op.claims ops) (fun a => a ∈ s₀.atts) (fun a ha c hc => stale a ha c hc) (Or.inl attest_sites_voted) ops s₀
+    ⟨fun a ha => Or.inr ha, fun e he => by rw [fresh₀] at he; cases he⟩ (fun _ h => h)
+  obtain ⟨pe, hv'⟩ := inv.2 e he
+  obtain ⟨_, hk, pv⟩ := hv' v hv
+  obtain ⟨k₁, v₁⟩ := valid _ pv
+  obtain ⟨k₂, v₂⟩ := valid _ pe
+  exact anyClaim_path_injective k₁ k₂ _ _ v₁ v₂ (collisionFree _ pv _ pe hk)
+
+/-- every `TryAttestation` call site is handed the attestation of the vote itself AND the voter's claim -/
+theorem attest_sites_own : OwnSites attestTrySites := by
+  intro t ht
+  simp only [attestTrySites, List.mem_singleton] at ht
+  subst ht
+  exact ⟨rfl, rfl⟩
+
+/-- … and the stale attestations are left exactly where they are, votes and all: no vote is added to them, none is
+observed, moved or deleted by any history -/
+theorem stale_attestations_untouched {η : Type} [DecidableEq η] (H : Str → η) (le : η → η → Bool) (s₀ : AState η) (ops : List Op)
+    (fresh₀ : s₀.executed = [])
+    (stale : ∀ a ∈ s₀.atts, ∀ c ∈ Op.claims ops, ¬(a.nonce = c.nonce ∧ a.hash = H c.path)) :
+    ∀ a ∈ s₀.atts, a ∈ (run (fun c => H c.path) le s₀ ops).atts := by
+  intro a ha
+  exact keeps_run attestTrySites attestLookup attest_sites_well_keyed attest_sites_own attest_lookup_own_key (fun c => H c.path) le
+    (fun c => c ∈ Op.claims ops) (fun a => a ∈ s₀.atts) (fun a ha c hc => stale a ha c hc) ops s₀
+    ⟨fun a ha => Or.inr ha, fun e he => by rw [fresh₀] at he; cases he⟩ (fun _ h => h) a ha ha
+
+/-- the hypothesis `stale` is a THEOREM for the legacy bridge-call format: no valid claim of any type has, under the current
+(regenerated) formats, the path the earlier release hashed for a valid bridge call (8 separators; the current formats have
+5, 10, 5, 4, 6, 4) -/
+theorem legacy_bridgeCall_key_stale (k₁ k₂ : AddrKind) (a : MsgBridgeCallClaim) (va : a.valid k₁ = true) (c : AnyClaim)
+    (vc : c.valid k₂ = true) : legacyBridgeCallPath a ≠ c.path := legacy_bc_ne_current va c vc
+
+/-- … and for the legacy bridge-call-result format (`h/n/nonce/bool/cause`: 4 separators, like the current send-to-external
+and oracle-set formats, from which it differs in the fourth component) -/
+theorem legacy_bridgeCallResult_key_stale (k₁ k₂ : AddrKind) (a : MsgBridgeCallResultClaim) (va : a.valid k₁ = true)
+    (c : AnyClaim) (vc : c.valid k₂ = true) : legacyBridgeCallResultPath a ≠ c.path := legacy_bcr_ne_current va c vc
+
+/-- **across the upgrade `b7515bc`, no hypothesis on keys left** (ideal hash): start from any state whose attestations sit
+under the legacy path of some valid bridge call or bridge-call result — with any votes, any recorded claim — and run any
+history of valid claims: every execution hands the handler what every tallied voter voted for -/
+theorem executed_is_voted_across_upgrade (le : Str → Str → Bool) (s₀ : AState Str) (ops : List Op)
+    (valid : ∀ c ∈ Op.claims ops, ∃ k, c.valid k = true) (fresh₀ : s₀.executed = [])
+    (legacy : ∀ a ∈ s₀.atts, (∃ k, ∃ m : MsgBridgeCallClaim, m.valid k = true ∧ a.hash = legacyBridgeCallPath m)
+      ∨ (∃ k, ∃ m : MsgBridgeCallResultClaim, m.valid k = true ∧ a.hash = legacyBridgeCallResultPath m)) :
+    ∀ e ∈ (run (fun c => c.path) le s₀ ops).executed, ∀ v ∈ e.tallied, v.2.effect = e.claim.effect := by
+  refine executed_is_voted_from id le s₀ ops valid (fun _ _ _ _ h => h) fresh₀ ?_
+  intro a ha c hc hk
+  obtain ⟨k₂, vc⟩ := valid c hc
+  rcases legacy a ha with ⟨k, m, vm, e⟩ | ⟨k, m, vm, e⟩
+  · exact legacy_bc_ne_current vm c vc (e ▸ hk.2)
+  · exact legacy_bcr_ne_current vm c vc (e ▸ hk.2)
+
+/-- the other bridge call of `legacyOps`: same legacy hash as `wCall`, another memo and origin -/
+def wCall' : MsgBridgeCallClaim := { wCall with Memo := memoSendCallTo, TxOrigin := ethB }
+
+/-- the state an upgraded chain can be in: oracle 0 (power 10 of 30) voted for `wCall` before the upgrade; the attestation
+is open and sits under the LEGACY hash of `wCall` (which is also the legacy hash of `wCall'`) -/
+def upgradedState : AState Str :=
+  { atts := [{ nonce := 1, hash := legacyKey (.bc wCall), claim := .bc wCall, votes := [(0, .bc wCall)], observed := false }],
+    powers := [(0, 10), (1, 10), (2, 10)], total := 30, lastByOracle := [(0, 1)] }
+
+/-- an `Attest` that, when nothing is stored under the voter's key, adopts an open attestation found under another key -/
+def adoptingLookup : List AttSource := [.ownKey, .otherStored "k.migrateLegacyAttestation(ctx, claim)", .fresh]
+
+/-- with the adopting lookup — the key function and the call sites being the ones of the source — oracle 1's vote for
+`wCall'` is tallied with oracle 0's pre-upgrade vote for `wCall`, crosses the threshold, and `wCall'` is executed: the
+hypothesis `attest_lookup_own_key` of `executed_is_voted_from` is what rules this out -/
+theorem adopting_lookup_not_voted :
+    (∀ c ∈ Op.claims [.vote 1 (.bc wCall') false], c.valid .eth = true)
+    ∧ (∀ a ∈ upgradedState.atts, ∀ c ∈ Op.claims [.vote 1 (.bc wCall') false], ¬(a.nonce = c.nonce ∧ a.hash = c.path))
+    ∧ ∃ e ∈ (runWith attestTrySites adoptingLookup (fun c => c.path) (fun _ _ => true) upgradedState
+              [.vote 1 (.bc wCall') false]).executed, ∃ v ∈ e.tallied, v.2.effect ≠ e.claim.effect :=
+  ⟨by decide +kernel, by decide +kernel,
+   ⟨{ claim := .bc wCall', tallied := [(0, .bc wCall), (1, .bc wCall')] }, by decide +kernel, (0, .bc wCall), by decide +kernel,
+    by decide +kernel⟩⟩
+
+/-- non-vacuity of `executed_is_voted_from`: with the lookup found in the source the stale attestation stays where it is,
+oracle 1's vote opens a new attestation, and oracle 2's vote for the same event executes it with exactly their two votes -/
+example : (run (fun c => c.path) (fun _ _ => true) upgradedState [.vote 1 (.bc wCall') false]).executed = []
+    ∧ (run (fun c => c.path) (fun _ _ => true) upgradedState [.vote 1 (.bc wCall') false, .vote 2 (.bc wCall') false]).executed
+        = [{ claim := .bc wCall', tallied := [(1, .bc wCall'), (2, .bc wCall')] }]
+    ∧ (run (fun c => c.path) (fun _ _ => true) upgradedState [.vote 1 (.bc wCall') false, .vote 2 (.bc wCall') false]).atts.length = 2 := by
+  decide +kernel
+example : upgradedState.executed = []
+    ∧ ∀ a ∈ upgradedState.atts, ∀ c ∈ Op.claims [.vote 1 (.bc wCall') false, .vote 2 (.bc wCall') false],
+        ¬(a.nonce = c.nonce ∧ a.hash = c.path) := by decide +kernel
+
+/-- non-vacuity of `executed_is_voted_across_upgrade`: `upgradedState` is such a state (its attestation sits under the
+legacy path of the valid bridge call `wCall`) -/
+example : upgradedState.executed = [] ∧ ∀ a ∈ upgradedState.atts,
+    (∃ k, ∃ m : MsgBridgeCallClaim, m.valid k = true ∧ a.hash = legacyBridgeCallPath m)
+    ∨ (∃ k, ∃ m : MsgBridgeCallResultClaim, m.valid k = true ∧ a.hash = legacyBridgeCallResultPath m) := by
+  refine ⟨rfl, fun a ha => Or.inl ⟨.eth, wCall, by decide, ?_⟩⟩
+  simp only [upgradedState, List.mem_singleton] at ha
+  subst ha
+  rfl
 
 /-! ## what the handlers READ is what the quorum voted for (round 3)
 
@@ -630,8 +784,8 @@ theorem executed_view_is_voted {η : Type} [DecidableEq η] (H : Str → η) (le
     (collisionFree : ∀ c₁ ∈ Op.claims ops, ∀ c₂ ∈ Op.claims ops, H c₁.path = H c₂.path → c₁.path = c₂.path) :
     ∀ e ∈ (run (fun c => H c.path) le {} ops).executed, ∀ v ∈ e.tallied, v.2.handlerView = e.claim.handlerView := by
   intro e he v hv
-  have inv := inv_run attestTrySites attest_sites_well_keyed (fun c => H c.path) le (fun c => c ∈ Op.claims ops) ops {}
-    (inv_init _ _) (fun _ h => h)
+  have inv := inv_run attestTrySites attestLookup attest_sites_well_keyed attest_lookup_own_key (fun c => H c.path) le
+    (fun c => c ∈ Op.claims ops) (fun _ => False) (stale_false _ _) (Or.inr fun _ h => h) ops {} (inv_init _ _ _) (fun _ h => h)
   obtain ⟨pe, hv'⟩ := inv.2 e he
   obtain ⟨_, hk, pv⟩ := hv' v hv
   exact handler_view_is_voted _ _ (wf _ pv) (wf _ pe) (collisionFree _ pv _ pe hk)
@@ -643,8 +797,24 @@ theorem ran_view_is_voted {η : Type} [DecidableEq η] (H : Str → η) (le : η
     ∀ c ∈ (run (fun c => H c.path) le {} ops).ran,
       ∃ e ∈ (run (fun c => H c.path) le {} ops).executed, e.claim = c ∧ ∀ v ∈ e.tallied, v.2.handlerView = c.handlerView := by
   intro c hc
-  obtain ⟨e, he, hec⟩ := (pendInv_run attestTrySites (fun c => H c.path) le ops {} pendInv_init).2 c hc
+  obtain ⟨e, he, hec⟩ := (pendInv_run attestTrySites attestLookup (fun c => H c.path) le ops {} pendInv_init).2 c hc
   exact ⟨e, he, hec, fun v hv => hec ▸ executed_view_is_voted H le ops wf collisionFree e he v hv⟩
+
+/-- across an upgrade (see `executed_is_voted_from`): what the handlers read of the executed claim is what every tallied
+voter submitted, from any initial state with stale attestations -/
+theorem executed_view_is_voted_from {η : Type} [DecidableEq η] (H : Str → η) (le : η → η → Bool) (s₀ : AState η) (ops : List Op)
+    (wf : ∀ c ∈ Op.claims ops, c.wellFormed = true)
+    (collisionFree : ∀ c₁ ∈ Op.claims ops, ∀ c₂ ∈ Op.claims ops, H c₁.path = H c₂.path → c₁.path = c₂.path)
+    (fresh₀ : s₀.executed = [])
+    (stale : ∀ a ∈ s₀.atts, ∀ c ∈ Op.claims ops, ¬(a.nonce = c.nonce ∧ a.hash = H c.path)) :
+    ∀ e ∈ (run (fun c => H c.path) le s₀ ops).executed, ∀ v ∈ e.tallied, v.2.handlerView = e.claim.handlerView := by
+  intro e he v hv
+  have inv := inv_run attestTrySites attestLookup attest_sites_well_keyed attest_lookup_own_key (fun c => H c.path) le
+    (fun c => c ∈ Op.claims ops) (fun a => a ∈ s₀.atts) (fun a ha c hc => stale a ha c hc) (Or.inl attest_sites_voted) ops s₀
+    ⟨fun a ha => Or.inr ha, fun e he => by rw [fresh₀] at he; cases he⟩ (fun _ h => h)
+  obtain ⟨pe, hv'⟩ := inv.2 e he
+  obtain ⟨_, hk, pv⟩ := hv' v hv
+  exact handler_view_is_voted _ _ (wf _ pv) (wf _ pe) (collisionFree _ pv _ pe hk)
 
 /-- no handler is handed the claim object in a way the translator cannot follow (an entry `.whole`) -/
 theorem handler_view_complete (c : AnyClaim) : ∀ e ∈ c.handlerView, ∀ l ∈ e.vals, ∀ w, l ≠ .whole w := by
@@ -736,6 +906,196 @@ example : runAddBridgeToken "eth".toList [] { wToken with Decimals := 6 } = .err
 /-- the module name matters (it is the keeper's, not the claim's `ChainName`) -/
 example : runAddBridgeToken "bsc".toList [] wToken ≠ runAddBridgeToken "eth".toList [] wToken := by decide +kernel
 
+/-! ## the WRITES of every handler are the voted ones (round 4): the handler bodies as interpreted control-flow programs
+
+`flow_<tag>` (Gen/C03.lean, REGENERATED by go/extract/c03flow.go) is the code that executes a claim of each type —
+`SendToFxExecuted`, `BridgeCallHandler`, `BridgeCallResultHandler`, `UpdateOracleSetExecuted`, `AddBridgeTokenExecuted`, the
+`MsgSendToExternalClaim` case of `AttestationHandler` — compiled statement by statement into instructions (assignments,
+calls, conditional jumps, `range` loops, returns) that `Model/C03Flow.lean` `exec` INTERPRETS.  The Go expressions inside are
+opaque functions of their leaves and of the state; a leaf is a local variable or a claim read, and a claim read gets its value
+from the regenerated `handlerView` under the (function, shape) key the view scan gave it.  The theorems hold for EVERY meaning
+of the opaque functions (`FSem`: any state type, any value type, any deterministic semantics of each expression, of truth and
+of `range`), i.e. for the real bank / erc20 / evm / ibc keepers, which are not modelled. -/
+
+/-- every statement of the six handler bodies was recognised by the translator, and every jump lands inside its program -/
+theorem flows_modelled :
+    (flowModelled flow_stf && flowModelled flow_bc && flowModelled flow_bcr && flowModelled flow_ste && flowModelled flow_bt
+      && flowModelled flow_osu) = true := by decide
+
+/-- every claim read of a flow is an entry of the handler view of that claim type: the flow sees nothing of the claim that
+the view (and so `handler_view_is_voted`) does not cover -/
+theorem flow_reads_in_view (c : AnyClaim) : flowResolves c.flow c.handlerView = true := by
+  cases c <;> rfl
+
+/-- conversely, every entry the view scan found inside the compiled function is read by the flow (the two translations of
+the same body agree on what is read of the claim) -/
+theorem flow_covers_view (c : AnyClaim) : flowCovers c.flow c.flowFns c.handlerView = true := by
+  cases c <;> rfl
+
+/-- claims with the same effect-relevant fields have the same type, so the same flow -/
+theorem flow_of_effect {c₁ c₂ : AnyClaim} (h : c₁.effect = c₂.effect) : c₁.flow = c₂.flow := by
+  cases c₁ <;> cases c₂ <;> simp only [AnyClaim.effect, reduceCtorEq] at h <;> rfl
+
+/-- for every semantics of the opaque parts, every state and every fuel: what executing a claim does — final state, returned
+values, how it ended — is determined by the claim's type and its handler view -/
+theorem handler_flow_of_view {σ ν : Type} (sem : FSem σ ν) (fuel : Nat) (st : σ) (c₁ c₂ : AnyClaim)
+    (hf : c₁.flow = c₂.flow) (hv : c₁.handlerView = c₂.handlerView) :
+    AnyClaim.runFlow sem fuel st c₁ = AnyClaim.runFlow sem fuel st c₂ := by
+  simp only [AnyClaim.runFlow, hf, hv]
+
+/-- **over all histories, for all six handlers**: whenever an attestation is observed, executing the claim object the handler
+was given — in any state, under any semantics of the keepers' functions — does exactly what executing the claim object of
+ANY tallied voter would have done -/
+theorem executed_flow_is_voted {η : Type} [DecidableEq η] (H : Str → η) (le : η → η → Bool) (ops : List Op)
+    (wf : ∀ c ∈ Op.claims ops, c.wellFormed = true)
+    (collisionFree : ∀ c₁ ∈ Op.claims ops, ∀ c₂ ∈ Op.claims ops, H c₁.path = H c₂.path → c₁.path = c₂.path)
+    {σ ν : Type} (sem : FSem σ ν) (fuel : Nat) (st : σ) :
+    ∀ e ∈ (run (fun c => H c.path) le {} ops).executed, ∀ v ∈ e.tallied,
+      AnyClaim.runFlow sem fuel st v.2 = AnyClaim.runFlow sem fuel st e.claim := by
+  intro e he v hv
+  have hview := executed_view_is_voted H le ops wf collisionFree e he v hv
+  have heff := executed_is_voted H le ops (fun c hc => valid_of_wellFormed (wf c hc)) collisionFree e he v hv
+  exact handler_flow_of_view sem fuel st _ _ (flow_of_effect heff) hview
+
+/-- … and the same for the claims `ExecuteClaim` runs later from the pending store (send-to-fx, bridge call, bridge-call
+result): running the stored copy does what running any tallied voter's claim would have done -/
+theorem ran_flow_is_voted {η : Type} [DecidableEq η] (H : Str → η) (le : η → η → Bool) (ops : List Op)
+    (wf : ∀ c ∈ Op.claims ops, c.wellFormed = true)
+    (collisionFree : ∀ c₁ ∈ Op.claims ops, ∀ c₂ ∈ Op.claims ops, H c₁.path = H c₂.path → c₁.path = c₂.path)
+    {σ ν : Type} (sem : FSem σ ν) (fuel : Nat) (st : σ) :
+    ∀ c ∈ (run (fun c => H c.path) le {} ops).ran,
+      ∃ e ∈ (run (fun c => H c.path) le {} ops).executed, e.claim = c ∧
+        ∀ v ∈ e.tallied, AnyClaim.runFlow sem fuel st v.2 = AnyClaim.runFlow sem fuel st c := by
+  intro c hc
+  obtain ⟨e, he, hec⟩ := (pendInv_run attestTrySites attestLookup (fun c => H c.path) le ops {} pendInv_init).2 c hc
+  exact ⟨e, he, hec, fun v hv => hec ▸ executed_flow_is_voted H le ops wf collisionFree sem fuel st e he v hv⟩
+
+/-- a semantics for the examples: the state is the trace of the expressions evaluated, a value is the claim values it was
+computed from, a condition holds iff its value is the text `FX` -/
+def traceSem : FSem (List String) (List HLeaf) where
+  op := fun src args st => (st ++ [src], args.flatten)
+  proj := fun _ v => v
+  truth := fun v => v == [.str "FX".toList]
+  elems := fun v => match v with
+    | [.strs l] => l.map fun x => ([.str x], [.str x])
+    | _ => []
+  ofView := id
+  undef := []
+
+/-- non-vacuity: the interpreter really follows the regenerated control flow — under `traceSem` the bridge-token flow takes
+the `Symbol == FX` branch for `wToken` (two `AddBridgeToken` calls) and not for another symbol -/
+example : (AnyClaim.runFlow traceSem 100 [] (.bt wToken)).how = .returned
+    ∧ (AnyClaim.runFlow traceSem 100 [] (.bt wToken)).state.count "k.AddBridgeToken(ctx, fxtypes.DefaultDenom, bridgeDenom)" = 1
+    ∧ (AnyClaim.runFlow traceSem 100 [] (.bt { wToken with Symbol := "A".toList })).state.count "k.AddBridgeToken(ctx, fxtypes.DefaultDenom, bridgeDenom)" = 0
+    ∧ (AnyClaim.runFlow traceSem 100 [] (.bt { wToken with Symbol := "A".toList })).how = .returned := by decide +kernel
+/-- the `range` loop of `BridgeCallHandler` runs once per token contract -/
+example : (AnyClaim.runFlow traceSem 200 [] (.bc { wCall with TokenContracts := [ethA, ethB], Amounts := [some 1, some 2] })).state.count
+            "k.BridgeTokenToBaseCoin(ctx, address, msg.Amounts[i], receiverAddr.Bytes())" = 2
+    ∧ (AnyClaim.runFlow traceSem 200 [] (.bc wCall)).state.count
+            "k.BridgeTokenToBaseCoin(ctx, address, msg.Amounts[i], receiverAddr.Bytes())" = 0 := by decide +kernel
+/-- a flow that read a field the view does not list (the relayer's own address) would not resolve -/
+example : flowResolves [.eval ⟨"k.credit(ctx, claim.BridgerAddress)", [.read "SendToFxExecuted" "BridgerAddress"]⟩]
+    (AnyClaim.stf { EventNonce := 7, BlockHeight := 9, TokenContract := ethA, Amount := some 5, Sender := ethB, Receiver := bech,
+                    TargetIbc := [], BridgerAddress := bech, ChainName := [] }).handlerView = false := by decide +kernel
+/-- … and an unrecognised statement or a jump out of the program is not `flowModelled` -/
+example : flowModelled [.unknown "switch"] = false ∧ flowModelled [.jmp 5] = false ∧ flowModelled [] = false := by decide
+
+/-! ## the claim as `types.ExternalClaim`: every use of the interface value is accounted for (round 4)
+
+Before a handler sees a claim of a concrete type, the claim travels through `Claim`, `claimLogicCheck`, `Attest`,
+`TryAttestation`, `processAttestation`, `AttestationHandler`, the pending store and the iterators as a `types.ExternalClaim`.
+`interfaceUses` (REGENERATED: a forward data-flow over the variables of that static type in every function of
+x/crosschain/keeper, re-bindings and type assertions included) lists every use. -/
+
+/-- every use is one the property can live with: a getter of a field every hash covers, the hash, the type, a type switch
+(from where the typed scans follow the claim), a hand-over to a function that is itself scanned or that stores the claim
+unchanged; the relayer's address only in `MsgServer.Claim` -/
+theorem interface_uses_classified : interfaceUses.all allowedInterfaceUse = true := by decide
+
+/-- every function a claim is handed on to (`followedCallees`) really is in the table — the scan saw its body -/
+theorem interface_callees_scanned :
+    followedCalleeTable.all (fun p =>
+      !(interfaceUses.any fun u => u.2.1 == "pass" && u.2.2 == p.2) || interfaceUses.any fun w => w.1 == p.1) = true := by decide
+
+/-- the field getters among the allowed interface methods are the ones `interface_reads_hashed` shows to be hashed by every
+claim type, and the table is not empty because the translator lost track -/
+theorem interface_getters_are_hashed_fields :
+    interfaceFieldGetters.all (fun g => externalClaimReads.contains g.2) = true
+    ∧ interfaceUses.any (fun u => u == ("Attest", "call", "ClaimHash")) = true
+    ∧ interfaceUses.any (fun u => u == ("TryAttestation", "pass", "processAttestation#1")) = true := by decide
+
+/-- a use the allow-list rejects: reading the relayer's address, or the claim's own chain name, where the event is executed -/
+example : allowedInterfaceUse ("TryAttestation", "call", "GetClaimer") = false
+    ∧ allowedInterfaceUse ("AttestationHandler", "call", "GetChainName") = false
+    ∧ allowedInterfaceUse ("TryAttestation", "pass", "rewardRelayer#1") = false := by decide
+
+/-! ## refinement: this attestation model and the C01 model take the same steps (round 4)
+
+`Model/C01.lean` is the attestation / quorum model of C01 and C02 (claims as hash ids; the guards of `Attest` and
+`TryAttestation` enter through the regenerated `Gen.C01` flags: contiguity check, `!att.Observed`, next-nonce guard,
+`66 * total / 100`, the comparison `LT`, …).  `Proofs/C03Refine.lean` `Corr s t` says a state of this model and a C01 state
+describe one store.  One accepted vote — and therefore any sequence of accepted votes — takes corresponding states to
+corresponding states: the two hand-written models agree on which attestation a vote lands in, on its vote list, on whether
+`TryAttestation` is called, on its verdict, and on what an observation writes. -/
+
+open FxVerif.Proofs.C03Refine in
+/-- the regenerated tables have the shape the refinement is stated for: one `TryAttestation` call, handed the voted
+attestation and the voter's claim; the attestation looked up under the voter's own key, else new -/
+theorem attest_tables_shape :
+    attestTrySites.map (fun t => (t.att, t.claim)) = [(.voted, .voter)] ∧ attestLookup = [.ownKey, .fresh] := by decide
+
+open FxVerif.Proofs.C03Refine in
+/-- **one vote**: from corresponding states, a vote that passes `claimLogicCheck` and the contiguity check (handler not
+panicking, event nonce within `MaxKeepEventSize` so that nothing is pruned) is accepted, and the resulting states correspond:
+`vote` (this model, over the regenerated call structure) refines `C01.attest` (over the regenerated guards) -/
+theorem vote_refines_C01 (key : AnyClaim → Nat) (le : Nat → Nat → Bool) {s : AState Nat} {t : FxVerif.Model.C01.State}
+    (hc : Corr s t) (o : Nat) (c : AnyClaim) (hl : logicCheck s c = true) (hcont : c.nonce = lastNonceOf s o + 1)
+    (hkeep : c.nonce ≤ FxVerif.Gen.C01.maxKeepEventSize) :
+    (vote key le s o c false).2 = .ok
+    ∧ Corr (vote key le s o c false).1 (FxVerif.Model.C01.attest t o c.nonce (key c) (kindOf c)) := by
+  have := vote_refines_attest key le attestTrySites attest_tables_shape.1 hc o c hl hcont hkeep
+  simpa only [vote, attest_tables_shape.2] using this
+
+open FxVerif.Proofs.C03Refine in
+/-- every vote of the list is accepted when its turn comes -/
+def Accepted (key : AnyClaim → Nat) (le : Nat → Nat → Bool) : AState Nat → List (Nat × AnyClaim) → Prop
+  | _, [] => True
+  | s, (o, c) :: r =>
+    logicCheck s c = true ∧ c.nonce = lastNonceOf s o + 1 ∧ c.nonce ≤ FxVerif.Gen.C01.maxKeepEventSize
+    ∧ Accepted key le (vote key le s o c false).1 r
+
+open FxVerif.Proofs.C03Refine in
+/-- **any sequence of accepted votes** (any oracles, any claims of any types, any interleaving of event nonces and of
+conflicting claims for one nonce): the two models stay in corresponding states -/
+theorem votes_refine_C01 (key : AnyClaim → Nat) (le : Nat → Nat → Bool) :
+    ∀ (vs : List (Nat × AnyClaim)) (s : AState Nat) (t : FxVerif.Model.C01.State), Corr s t → Accepted key le s vs →
+      Corr (vs.foldl (fun s v => (vote key le s v.1 v.2 false).1) s)
+           (vs.foldl (fun t v => FxVerif.Model.C01.attest t v.1 v.2.nonce (key v.2) (kindOf v.2)) t)
+  | [], _, _, hc, _ => hc
+  | (o, c) :: r, s, t, hc, ha => by
+    obtain ⟨hl, hcont, hkeep, hr⟩ := ha
+    simp only [List.foldl_cons]
+    exact votes_refine_C01 key le r _ _ (vote_refines_C01 key le hc o c hl hcont hkeep).2 hr
+
+open FxVerif.Proofs.C03Refine in
+/-- the empty stores correspond -/
+theorem corr_init : Corr ({} : AState Nat) (FxVerif.Model.C01.init {}) :=
+  { atts := fun _ _ => rfl, lastObserved := rfl, lastNonce := fun _ => rfl, powers := fun _ => rfl, total := rfl }
+
+open FxVerif.Proofs.C03Refine in
+/-- the verdict of the vote loop of `TryAttestation` is the same in both models, for every vote list -/
+theorem tally_agrees_with_C01 {s : AState Nat} {t : FxVerif.Model.C01.State} (hc : Corr s t) (votes : List Nat) :
+    crosses s votes = FxVerif.Model.C01.tally t.oracles (FxVerif.Model.C01.required t.lastTotalPower) votes 0 :=
+  crosses_eq_tally hc votes 0
+
+/-- non-vacuity: from the empty stores two oracles voting for conflicting bridge calls of event nonce 1 are accepted in
+turn (the second lands in its own attestation) … -/
+example : Accepted (fun c => c.path.length) (fun _ _ => true) {} [(0, .bc wCall), (1, .bc wCall')] :=
+  ⟨by decide +kernel, by decide +kernel, by decide, by decide +kernel, by decide +kernel, by decide, trivial⟩
+/-- … while a vote that skips ahead is not (`Accepted` is a real restriction) -/
+example : ¬Accepted (fun c => c.path.length) (fun _ _ => true) {} [(0, .bc { wCall with EventNonce := 5 })] :=
+  fun h => absurd h.2.1 (by decide +kernel)
+
 /-! ## the store keys (round 3): `GetAttestationKey` / `GetPendingExecuteClaimKey` byte layouts, regenerated from key.go
 
 The attestation model files votes under the PAIR (event nonce, claim hash); the code files them under the byte string
@@ -798,6 +1158,10 @@ example : (run (fun c => c.path) (fun _ _ => true) {} (legacyOps ++ [.vote 2 (.b
 /-- the recorded height after the three votes of `legacyOps` + oracle 2 is the voted one -/
 example : (run (fun c => c.path) (fun _ _ => true) {} (legacyOps ++ [.vote 2 (.bc wCall) false])).lastHeight = 1
     ∧ (run (fun c => c.path) (fun _ _ => true) {} (legacyOps ++ [.vote 2 (.bc { wCall with BlockHeight := 7 }) false])).lastHeight = 0 := by
+  decide +kernel
+
+/-- non-vacuity: after `legacyOps` there are two attestations (the two conflicting bridge calls), each under its own key -/
+example : ((run (fun c => c.path) (fun _ _ => true) {} legacyOps).atts.map fun a => a.claim.path == a.hash) = [true, true] := by
   decide +kernel
 
 end FxVerif.Props.C03
